@@ -51,7 +51,7 @@ def coq_case(o):
     obs = [coq_result(r) for r in o["results"]]
     if any(x is None for x in obs):
         return None
-    return "(%d, %d%%nat, [%s], [%s])" % (o["rbuf"], o["calls"], ";".join(segs), ";".join(obs))
+    return "(%d, %d%%nat, [%s], [%s])" % (o.get("rbuf_conn", o["rbuf"]), o["calls"], ";".join(segs), ";".join(obs))
 
 
 # ---- the property's own statement, evaluated on the implementation's observations --------------------------
@@ -81,10 +81,19 @@ def same(a, b):
     return True
 
 
+def negotiated(o):
+    """the receive limit the connection must have: a server takes min(own, the send size the client announced),
+    a client keeps the receive size it announced, NewConn uses the given value"""
+    if o["via"] == "listener" and o.get("peer_send"):
+        return min(o["rbuf"], o["peer_send"])
+    return o["rbuf"]
+
+
 def oracle(o):
     """None if the observation satisfies the property, else (key, what)"""
     if o["rbuf"] < 8:
         return None            # outside the quantifier (a receive buffer below the header size is C13's business)
+    o = dict(o, rbuf=negotiated(o))
     res = o["results"]
     for r in res:
         if r.get("err") == "panic":
@@ -124,7 +133,7 @@ def oracle(o):
 
 
 def run(ctx):
-    n = 6000 if ctx.thorough() else 700
+    n = 6000 if ctx.thorough() else 450
     proof_ok, detail = True, {}
     ok, out = ctx.regen(["uacp"])
     if not ok:
@@ -220,7 +229,7 @@ def run(ctx):
             outcomes[k] = outcomes.get(k, 0) + 1
     sizes = [len(f) // 2 for o in obs for f in o["frames"]]
     at_min = sum(1 for s in sizes if s == 8)
-    at_max = sum(1 for o in obs for f in o["frames"] if len(f) // 2 == o["rbuf"])
+    at_max = sum(1 for o in obs for f in o["frames"] if len(f) // 2 == negotiated(o))
 
     def short(o):
         return {k: (v if k not in ("stream", "frames", "results") else (str(v)[:160] + "...")) for k, v in o.items()}
@@ -240,6 +249,8 @@ def run(ctx):
         "frames_sent": len(sizes), "frames_of_minimum_size_8": at_min, "frames_of_size_rbuf": at_max,
         "largest_frame": max(sizes or [0]),
         "rbuf_values": len({o["rbuf"] for o in obs}),
+        "asymmetric_configurations": sum(1 for o in obs if o.get("peer_send") and o["peer_send"] != o["rbuf"] and o["peer_send"] != 65535),
+        "negotiated_below_configured": sum(1 for o in obs if negotiated(o) != o["rbuf"]),
         "out_of_domain_cases_rbuf_lt_8": sum(1 for o in obs if o["rbuf"] < 8),
         "traces_validated_against_impl": len(lines),
         "model_impl_mismatches": len(mism),
